@@ -73,9 +73,10 @@ def project_case(rng, files, st, nruns, project=None):
             infos.append(python_checks(p, gm, log, recs, wk))
             if k + 1 < nruns:
                 relimit(rng, world)
+    labels, lbad = GI.label_table(runs)
     term = ("(" + wterm + ", " + GI.nats(regids) + ", " + GI.nats(nograph) + ", " + coq_bool(show) + ", " +
-            coq_list(coq_list(GI.graph_term(r) for r in recs) for recs in runs) + ")")
-    problems = [x for i in infos for x in i]
+            labels + ", " + coq_list(coq_list(GI.graph_term(r) for r in recs) for recs in runs) + ")")
+    problems = [x for i in infos for x in i] + lbad
     summary = dict(entities=len(world.ents), registered=len(regids), nograph=len(nograph),
                    graphs=sum(len(r) for r in runs),
                    edges=sum(len(g["edges"]) for r in runs for g in r),
@@ -242,9 +243,12 @@ def end_to_end(chk, rng, nproj):
             for pbl in python_checks(p, gm, spy.log, recs, world)[:3]:
                 chk.violation("failing-input", {"what": pbl, "files": files, "options": opts}, True)
             show = st.get("show_proc_parent", False)
+            labels, lbad = GI.label_table([recs])
+            for pbl in lbad[:2]:
+                chk.violation("failing-input", {"what": pbl, "files": files, "options": opts}, True)
             term = ("(" + world.term() + ", " + GI.nats([world.node(r, "KMod") for r in regs]) + ", " +
                     GI.nats([world.node(r, "KMod") for r in allv if not r.meta.graph]) + ", " + coq_bool(show) +
-                    ", " + coq_list([coq_list(GI.graph_term(r) for r in recs)]) + ")")
+                    ", " + labels + ", " + coq_list([coq_list(GI.graph_term(r) for r in recs)]) + ")")
             summary = dict(graphs=len(recs), edges=sum(len(g["edges"]) for g in recs))
             cases.append((term, dict(files=files, settings=opts, summary=summary, nruns=1)))
             # .gv files: same DOT source as the graph object; SVG of the graph names the same nodes
